@@ -50,7 +50,10 @@ type protoDef struct {
 	Down    bool     `json:"endpoint_down"`     // endpoint points to a closed port (connection refused)
 	Sources []source `json:"sources,omitempty"` // ordered, as documented for the type / configured
 	Custom  bool     `json:"custom_sources"`    // sources configured explicitly (jwt_source/token_source)
-	Weight  int      `json:"-"`
+	// Meta: the jwks/introspection endpoint is not configured but discovered through a metadata_endpoint whose
+	// url is templated with the issuer of the token (the documented multi tenant set-up)
+	Meta   bool `json:"metadata_endpoint,omitempty"`
+	Weight int  `json:"-"`
 }
 
 var bearerDefault = []source{{"header", "Authorization", "Bearer"}, {"query", "access_token", ""}, {"body", "access_token", ""}}
@@ -70,10 +73,12 @@ var protos = []protoDef{
 	{ID: "jwt_fb", Type: "jwt", FB: true, Sources: bearerDefault, Weight: 2},
 	{ID: "jwt_alt", Type: "jwt", Sources: jwtAltSources, Custom: true, Weight: 2},
 	{ID: "jwt_down", Type: "jwt", Down: true, Sources: bearerDefault, Weight: 1},
+	{ID: "jwt_meta", Type: "jwt", Meta: true, Sources: bearerDefault, Weight: 2},
 	{ID: "intro", Type: "intro", Sources: bearerDefault, Weight: 3},
 	{ID: "intro_fb", Type: "intro", FB: true, Sources: bearerDefault, Weight: 2},
 	{ID: "intro_alt", Type: "intro", Sources: introAltSources, Custom: true, Weight: 2},
 	{ID: "intro_down", Type: "intro", Down: true, Sources: bearerDefault, Weight: 1},
+	{ID: "intro_meta", Type: "intro", Meta: true, Sources: bearerDefault, Weight: 2},
 	{ID: "gen", Type: "gen", Sources: genSources, Custom: true, Weight: 3},
 	{ID: "gen_fb", Type: "gen", FB: true, Sources: genSources, Custom: true, Weight: 2},
 	{ID: "gen_bearer", Type: "gen", Sources: genBearerSources, Custom: true, Weight: 2},
@@ -200,23 +205,126 @@ func (e elem) anonSubject() string {
 type placement struct {
 	Slot   string `json:"slot"`             // H:<name> | C:<name> | Q:<name> | B:<name>
 	Scheme string `json:"scheme,omitempty"` // header only
-	Value  string `json:"value"`
-	Kind   string `json:"kind"`
-	Class  string `json:"class"`
-	For    int    `json:"for_position"` // chain position the item was generated for (-1: none)
+	// Sep: what separates scheme and value on the wire ("" = one blank). RFC 9110: credentials = auth-scheme 1*SP token68
+	Sep   string `json:"scheme_separator,omitempty"`
+	Value string `json:"value"`
+	Kind  string `json:"kind"`
+	Class string `json:"class"`
+	For   int    `json:"for_position"` // chain position the item was generated for (-1: none)
 }
 
 type lreq struct {
 	Recipe string      `json:"recipe"`
 	Items  []placement `json:"items"`
+	// how body credentials (slots B:...) are transported: encoding ("" = form, "json") and the spelling of the
+	// Content-Type header (name of an entry of contentTypes; "" = the plain media type)
+	BodyEnc string `json:"body_encoding,omitempty"`
+	CT      string `json:"content_type_spelling,omitempty"`
 }
 
 func (r lreq) shapeKey() string {
 	var p []string
 	for _, it := range r.Items {
-		p = append(p, fmt.Sprintf("%s[%s]=%s-%s@%d", it.Slot, it.Scheme, it.Kind, it.Class, it.For))
+		sep := ""
+		if it.Sep != "" {
+			sep = fmt.Sprintf("sep%q", it.Sep)
+		}
+		p = append(p, fmt.Sprintf("%s[%s%s]=%s-%s@%d", it.Slot, it.Scheme, sep, it.Kind, it.Class, it.For))
 	}
-	return r.Recipe + "{" + strings.Join(p, ",") + "}"
+	k := r.Recipe + "{" + strings.Join(p, ",") + "}"
+	if r.BodyEnc != "" || r.CT != "" {
+		k += "body:" + r.BodyEnc + "/" + r.CT
+	}
+	return k
+}
+
+func (r lreq) hasBodyItems() bool {
+	for _, it := range r.Items {
+		if it.Slot[0] == 'B' {
+			return true
+		}
+	}
+	return false
+}
+
+// withoutBody: the same request as seen by a reader that does not decode the body.
+func (r lreq) withoutBody() lreq {
+	out := lreq{Recipe: r.Recipe, BodyEnc: r.BodyEnc, CT: r.CT}
+	for _, it := range r.Items {
+		if it.Slot[0] != 'B' {
+			out.Items = append(out.Items, it)
+		}
+	}
+	return out
+}
+
+// ctSpelling is one way to write the Content-Type of a form / JSON body.
+//
+// Documentation of the body parameter strategy: "The Content-Type of the request must also either be set to
+// application/x-www-form-urlencoded or to a MIME type, which contains json". Parameters (well-formed or not)
+// and a header line sent twice do not change the media type: the body stays usable. Media types are
+// case-insensitive (RFC 9110, 8.3.1) while the documentation spells them in lower case: whether a body with
+// another casing of the type is usable is left open (Open: both readings are allowed).
+type ctSpelling struct {
+	Name  string
+	Lines []string // header lines; %s = the media type
+	Title bool     // media type written as Application/Json
+	Open  bool
+}
+
+func (c ctSpelling) lines(mediaType string) []string {
+	if c.Title {
+		b := []byte(mediaType)
+		for i := range b {
+			if (i == 0 || b[i-1] == '/' || b[i-1] == '-' || b[i-1] == '+' || b[i-1] == '.') && b[i] >= 'a' && b[i] <= 'z' {
+				b[i] -= 'a' - 'A'
+			}
+		}
+		mediaType = string(b)
+	}
+	var out []string
+	for _, l := range c.Lines {
+		out = append(out, strings.ReplaceAll(l, "%s", mediaType))
+	}
+	return out
+}
+
+var contentTypes = []ctSpelling{
+	{Name: "", Lines: []string{"%s"}},
+	{Name: "charset", Lines: []string{"%s; charset=utf-8"}},
+	{Name: "charset-compact-upper", Lines: []string{"%s;charset=UTF-8"}},
+	{Name: "param-name-case-quoted", Lines: []string{`%s; Charset="utf-8"`}},
+	{Name: "two-params", Lines: []string{"%s; charset=utf-8; boundary=x"}},
+	{Name: "trailing-semicolon", Lines: []string{"%s;"}},
+	{Name: "param-without-value", Lines: []string{"%s; charset"}},
+	{Name: "param-unterminated-quote", Lines: []string{`%s; charset="utf-8`}},
+	{Name: "param-without-name", Lines: []string{"%s; =utf-8"}},
+	{Name: "sent-twice", Lines: []string{"%s", "%s"}},
+	{Name: "sent-twice-one-with-param", Lines: []string{"%s", "%s; charset=utf-8"}},
+	{Name: "type-title-case", Lines: []string{"%s"}, Title: true},
+	{Name: "type-title-case-charset", Lines: []string{"%s; charset=utf-8"}, Title: true},
+}
+
+// body encodings and their media types ("" = form)
+var bodyEncodings = []string{"", "json", "json-suffix", "json-text"}
+var mediaTypes = map[string]string{"": "application/x-www-form-urlencoded", "json": "application/json", "json-suffix": "application/vnd.api+json", "json-text": "text/json"}
+
+func ctByName(n string) ctSpelling {
+	for _, c := range contentTypes {
+		if c.Name == n {
+			return c
+		}
+	}
+	panic("unknown content type spelling " + n)
+}
+
+// sep: the blanks between scheme and value. Any number (>= 1) of blanks separates the two (RFC 9110, 11.4);
+// they are not part of the credentials.
+func (p placement) sep() string {
+	if p.Sep == "" {
+		return " "
+	}
+	return p.Sep
 }
 
 func (r lreq) at(slot string) (placement, bool) {
@@ -266,7 +374,7 @@ func extract(srcs []source, r lreq) (raw string, p placement, found bool, otherS
 				}
 			} else if it.Scheme != "" {
 				// header without configured scheme: the whole value is the credential
-				return strings.TrimSpace(it.Scheme + " " + it.Value), it, true, otherScheme
+				return strings.TrimSpace(it.Scheme + it.sep() + it.Value), it, true, otherScheme
 			}
 			if strings.TrimSpace(it.Value) == "" {
 				// "Bearer" followed by nothing: the scheme token alone
@@ -377,8 +485,22 @@ type outcome struct {
 	Res      []string `json:"ambiguity_resolved"` // per ambiguous step: none|reject
 }
 
-// model: chain semantics of the statement. Ambiguous steps are resolved both ways.
+// model: chain semantics of the statement. Where the usability of the body is left open (see ctSpelling) the
+// behaviours of both readings are allowed; the per authenticator views are those of the reading "usable".
 func model(c chain, r lreq) (views []stepView, outs []outcome) {
+	views, outs = modelOf(c, r)
+	if r.hasBodyItems() && ctByName(r.CT).Open {
+		_, alt := modelOf(c, r.withoutBody())
+		for i := range alt {
+			alt[i].Res = append(alt[i].Res, "body-not-usable")
+		}
+		outs = append(outs, alt...)
+	}
+	return views, outs
+}
+
+// modelOf: chain semantics of the statement. Ambiguous steps are resolved both ways.
+func modelOf(c chain, r lreq) (views []stepView, outs []outcome) {
 	for _, e := range c.Elems {
 		sv := classify(e, r)
 		sv.V = sv.Verdict.String()
